@@ -44,7 +44,7 @@ def run(tier, seed):
                       '(2) parser: every repository example whole, truncated at seeded positions, and with seeded noise '
                       '(quotes, comment markers, brackets, oversized numerals, stray bytes), plus hand-written malformed programs: the '
                       'parser returns a tree or a reported error, whole examples are accepted; (3) every repository example and the '
-                      'generated timeline / causal / temporal families, and sessions of several read(script) calls in which a script that declares a predicate / class / enum / method fails in a later phase (unknown predicate, identifier, type, field, method, syntax error), the client catches the reported error and goes on with scripts that use the declarations, through read() + solve() in a Debug build (assertions on) and '
+                      'generated timeline / causal / temporal families, and sessions of several read(script) calls in which a script that declares a predicate / class / enum / method fails in a later phase (unknown predicate, identifier, type, field, method, syntax error), the client catches the reported error and goes on with scripts that use the declarations, and programs that apply every operator to operands of the wrong kind (incl. the precedence traps x < 5 | y >= 1 and x != 0 | b), through read() + solve() in a Debug build (assertions on) and '
                       'in an AddressSanitizer + UndefinedBehaviorSanitizer build: no abort, failed assertion, uncaught exception, '
                       'sanitizer report or leak; (4) seeded network API histories in the sanitizer build. distinct_nontrivial = '
                       'distinct inputs / programs / histories run')
@@ -92,6 +92,7 @@ def run(tier, seed):
         sessions = plancheck.write_feature_problems(rd, gen_features.session_family())
         problems += [(n, ['--script', '--recover'] + fs) for n, fs in sessions]
         problems += [(n + '_files', ['--recover'] + fs) for n, fs in sessions[::3]]
+        problems += plancheck.write_feature_problems(rd, gen_features.illtyped_family())
         if tier == 'quick':
             problems = [p for p in problems if not p[0].startswith(('GOAC_3', 'GOAC_4', 'GOAC_5', 'Matera_1', 'Matera_2'))]
         for cfg in (['dbg_exec', 'asan']):
